@@ -1331,6 +1331,8 @@ struct TemplateCore {
                 while (loop_index < loop_size) {
                     LoopItem &item = loops_items_->Storage()[tag.Level];
                     item.Value     = loop_set->GetValue(loop_index);
+                    // An array item has no key; forget the one an earlier object loop left at this level.
+                    item.Key.Reset();
 
                     if (item.Value != nullptr) {
                         render(s_tag, s_end, content_offset, tag.EndOffset);
